@@ -403,13 +403,18 @@ func ruleC16E10(r *Run) {
 		}
 		var lookup ssa.Instruction
 		allInstrs(fn, func(ins ssa.Instruction) {
-			if lk, ok := ins.(*ssa.Lookup); ok && hasLeaf(p.Leaves(lk.X, provOpts{}), "field:/iscp.Conn.replyCallChs") {
-				lookup = ins
+			if lk, ok := ins.(*ssa.Lookup); ok && hasLeaf(p.Leaves(lk.X, provOpts{}), "field:/iscp.Conn.replyCallChs") && hasLeaf(p.Leaves(lk.Index, provOpts{}), "field:/message.DownstreamCall.RequestCallID") {
+				lookup = ins // the dispatcher's lookup: keyed by the received call's RequestCallID
 			}
 		})
 		recvs := findCalls(fn, false, "/wire.ClientConn.ReceiveDownstreamCall")
-		if lookup == nil || len(recvs) == 0 {
+		if lookup == nil {
 			continue
+		}
+		// (when the routing of one call was moved into a helper of the loop, the helper's return stands for "next receive")
+		var nextRecv ssa.Instruction
+		if len(recvs) > 0 {
+			nextRecv = recvs[0]
 		}
 		n++
 		name := fnName(fn)
@@ -453,7 +458,7 @@ func ruleC16E10(r *Run) {
 			if _, isRet := ins.(*ssa.Return); isRet {
 				return true
 			}
-			return ins == recvs[0]
+			return nextRecv != nil && ins == nextRecv
 		}, func(ins ssa.Instruction) bool { return ins == lookup })
 		where := posOf(p, lookup)
 		detail := "every path from the reply edge passes the waiter lookup"
@@ -464,7 +469,7 @@ func ruleC16E10(r *Run) {
 		r.Check(name+" reply reaches its waiter", w == nil, where, name, detail)
 	}
 	if n == 0 {
-		r.Undecided("reply dispatcher", "no function looks up Conn.replyCallChs and receives downstream calls")
+		r.Undecided("reply dispatcher", "no function looks up Conn.replyCallChs")
 	}
 }
 
